@@ -121,6 +121,7 @@ VERIF = os.path.dirname(os.path.dirname(os.path.abspath(__file__)))
 REPO = os.environ.get("VERIF_REPO", "/repo")
 OUT = os.path.join(VERIF, "lean", "BarterModel", "Generated", "Machines.lean")
 OUT2 = os.path.join(VERIF, "lean", "BarterModel", "Generated", "Machines2.lean")
+OUT3 = os.path.join(VERIF, "lean", "BarterModel", "Generated", "Machines3.lean")
 
 SPOT = "barter-data/src/exchange/binance/spot/l2.rs"
 FUT = "barter-data/src/exchange/binance/futures/l2.rs"
@@ -152,6 +153,12 @@ SHARPE = "barter/src/statistic/metric/sharpe.rs"
 SORTINO = "barter/src/statistic/metric/sortino.rs"
 CALMAR = "barter/src/statistic/metric/calmar.rs"
 ROR = "barter/src/statistic/metric/rate_of_return.rs"
+ORD = "barter/src/engine/state/order/mod.rs"
+OMOD = "barter-execution/src/order/mod.rs"
+OSTATE = "barter-execution/src/order/state.rs"
+OREQ = "barter-execution/src/order/request.rs"
+OID = "barter-execution/src/order/id.rs"
+XERR = "barter-execution/src/error.rs"
 
 # (group, file, container, kind, name, options)     container: None = file top level, "mod x" or "impl X"
 MACHINES = [
@@ -188,11 +195,11 @@ MACHINES = [
     ("drawdown", DDMEAN, "impl MeanDrawdownGenerator", "fn", "init", {}),
     ("drawdown", DDMEAN, "impl MeanDrawdownGenerator", "fn", "update", {}),
     ("drawdown", DDMEAN, "impl MeanDrawdownGenerator", "fn", "generate", {}),
-    ("position_sm", "barter-instrument/src/lib.rs", None, "enum", "Side", {}),
+    ("position_sm+orders", "barter-instrument/src/lib.rs", None, "enum", "Side", {}),
     ("position_sm", "barter-instrument/src/asset/mod.rs", None, "struct", "QuoteAsset", {}),
     ("position_sm", TRADE, None, "opaque", "TradeId", {}),
-    ("position_sm", "barter-execution/src/order/id.rs", None, "opaque", "OrderId", {}),
-    ("position_sm", "barter-execution/src/order/id.rs", None, "opaque", "StrategyId", {}),
+    ("position_sm+orders", "barter-execution/src/order/id.rs", None, "opaque", "OrderId", {}),
+    ("position_sm+orders", "barter-execution/src/order/id.rs", None, "opaque", "StrategyId", {}),
     ("position_sm", TRADE, None, "struct", "AssetFees", {}),
     ("position_sm", TRADE, "impl Default for AssetFees<QuoteAsset>", "fn", "default", {}),
     ("position_sm", TRADE, None, "struct", "Trade", {}),
@@ -242,7 +249,7 @@ MACHINES = [
     ("pnl_returns", INSTR, "impl TearSheetGenerator", "fn", "update_from_position", {}),
     ("registers", BAL, None, "struct", "Balance", {}),
     ("registers", BAL, None, "struct", "AssetBalance", {}),
-    ("registers", SNAP, None, "struct", "Snapshot", {}),
+    ("registers+orders", SNAP, None, "struct", "Snapshot", {}),
     ("registers", SNAP, "impl Snapshot", "fn", "value", {}),
     ("registers", SUMASSET, None, "struct", "TearSheetAssetGenerator", {}),
     ("registers", SUMASSET, None, "derive_default", "TearSheetAssetGenerator", {}),
@@ -303,9 +310,40 @@ MACHINES = [
     ("clock", CLOCK, "impl HistoricalClock", "fn", "new", {}),
     ("clock", CLOCK, "impl EngineClock for HistoricalClock", "fn", "time", {}),
     ("clock", CLOCK, "impl Processor<&Event> for HistoricalClock", "fn", "process", {}),
+    # ---- third generated file (Machines3.lean) from here on: state machines over MAP containers
+    ("orders", OID, None, "opaque", "ClientOrderId", {}),
+    ("orders", XERR, None, "opaque", "OrderError", {"item": "enum", "generic": True}),
+    ("orders", OMOD, None, "enum", "OrderKind", {}),
+    ("orders", OMOD, None, "enum", "TimeInForce", {}),
+    ("orders", OMOD, None, "struct", "OrderKey", {}),
+    ("orders", OMOD, None, "struct", "OrderEvent", {}),
+    ("orders", OMOD, None, "struct", "Order", {}),
+    ("orders", OSTATE, None, "struct", "OpenInFlight", {}),
+    ("orders", OSTATE, None, "struct", "Open", {}),
+    ("orders", OSTATE, "impl Open", "fn", "quantity_remaining", {}),
+    ("orders", OSTATE, None, "struct", "CancelInFlight", {}),
+    ("orders", OSTATE, None, "struct", "Cancelled", {}),
+    ("orders", OSTATE, None, "enum", "ActiveOrderState", {}),
+    ("orders", OSTATE, "impl ActiveOrderState", "fn", "open_meta", {}),
+    ("orders", OSTATE, None, "enum", "InactiveOrderState", {}),
+    ("orders", OSTATE, None, "enum", "OrderState", {}),
+    ("orders", OREQ, None, "struct", "RequestOpen", {}),
+    ("orders", OREQ, None, "struct", "RequestCancel", {}),
+    ("orders", OREQ, None, "alias", "OrderRequestOpen", {}),
+    ("orders", OREQ, None, "alias", "OrderRequestCancel", {}),
+    ("orders", OREQ, None, "alias", "OrderResponseCancel", {}),
+    ("orders", OMOD, "impl Order<ExchangeKey, InstrumentKey, OrderState<AssetKey, InstrumentKey>>", "fn", "to_active", {}),
+    ("orders", OMOD, "impl From<&OrderRequestOpen<ExchangeKey, InstrumentKey>> for Order<ExchangeKey, InstrumentKey, ActiveOrderState>", "fn", "from", {}),
+    ("orders", ORD, None, "struct", "Orders", {}),
+    ("orders", ORD, "impl Default for Orders", "fn", "default", {}),
+    ("orders", ORD, "impl OrderManager for Orders", "fn", "update_from_order_snapshot", {}),
+    ("orders", ORD, "impl OrderManager for Orders", "fn", "update_from_cancel_response", {}),
+    ("orders", ORD, "impl InFlightRequestRecorder for Orders", "fn", "record_in_flight_cancel", {}),
+    ("orders", ORD, "impl InFlightRequestRecorder for Orders", "fn", "record_in_flight_open", {}),
 ]
 GROUPS = ["sequencer", "drawdown", "position_sm", "connectivity"]     # -> Generated/Machines.lean
 GROUPS2 = ["dataset", "pnl_returns", "registers", "risk", "metrics", "clock"]                                                 # -> Generated/Machines2.lean (imports the first)
+GROUPS3 = ["orders", "mock", "connectivity_updates"]                  # -> Generated/Machines3.lean (imports the second): MAP containers
 
 PRELUDE = """\
 /-! ## Fixed prelude: the meaning given to the Rust vocabulary of the accepted subset
